@@ -218,7 +218,11 @@ func (u *Unit) predDecl(pr *Pred) *ast.FuncDecl {
 			continue
 		}
 		for _, d := range f.Decls {
-			if fd, ok := d.(*ast.FuncDecl); ok && fd.Name.Name == pr.Name {
+			pname := pr.Name
+			if i := strings.Index(pname, "["); i >= 0 {
+				pname = pname[:i]
+			}
+			if fd, ok := d.(*ast.FuncDecl); ok && fd.Name.Name == pname {
 				return fd
 			}
 		}
@@ -357,8 +361,20 @@ func (u *Unit) evalGhostCall(call *ast.CallExpr, f *types.Func, st *State) []Val
 			for _, n := range fl.Names {
 				v, _ := u.info.Defs[n].(*types.Var)
 				srt := u.reg.sortOf(v.Type())
-				u.reg.counter++
-				name := fmt.Sprintf("q_%s!%d", n.Name, u.reg.counter)
+				// canonical name (binder position): the same clause evaluated twice gives the same text,
+				// so that hypothesis and goal can be matched syntactically; fall back to a fresh name
+				// when the name already occurs free in a bound value (no capture)
+				name := fmt.Sprintf("q_%s_%d", n.Name, int(n.Pos()))
+				clash := false
+				for _, bv := range nb {
+					if strings.Contains(bv.T, name) {
+						clash = true
+					}
+				}
+				if clash {
+					u.reg.counter++
+					name = fmt.Sprintf("q_%s!%d", n.Name, u.reg.counter)
+				}
 				binders = append(binders, "("+name+" "+srt+")")
 				nb[v] = Val{T: name, S: srt, GT: v.Type()}
 			}
